@@ -15,7 +15,9 @@
 //!  * demux_sip (v): SIP text (incl. methods whose first byte looks like a STUN type) is never STUN.
 //!  * client_schedule / client_concurrent / client_cleanup (vi): see `c20/client.rs` — loss patterns x
 //!    shape of the exchange (response class success / error, message content, transaction id,
-//!    request content), several pending requests, errors and cancellation.
+//!    request content), several pending requests, errors and cancellation, and (client_transport)
+//!    the way the user's send_to completes x the path / latency of the answer, so that a response
+//!    comes in while send_to of the initial transmission or of a retransmission has not returned.
 //! Not asserted: whether the SIP parser accepts the generated SIP text; MESSAGE-INTEGRITY behind
 //! MESSAGE-INTEGRITY-SHA256; methods other than Binding beyond no-panic; whether a request or
 //! indication that carries a pending transaction id completes the call; 39.5 s vs 63.5 s give-up.
@@ -830,7 +832,8 @@ pub fn property() -> Property {
                non-trivial iff the first byte is < 0x40. client_*: a case is a schedule (which transmissions are answered, by which id, \
                when / where send_to fails / when the future is dropped) plus the shape of the exchange (class and content of the \
                delivered messages, transaction id, content of the request; for client_concurrent 2-3 calls with their ids, start \
-               instants, answers and response classes); every enumerated case that ezk's parser lets through is non-trivial, distinct = the case.",
+               instants, answers and response classes; for client_transport how send_to completes, by which path and with which latency \
+               the answer comes back, which transmission gets the right id and which ones foreign ids); every enumerated case that ezk's parser lets through is non-trivial, distinct = the case.",
         assumptions: vec![
             "reference model ref_stun is correct (checked against the RFC 5769 vectors by its unit tests; each run re-checks that it decodes and verifies its own output)",
             "text attributes never contain U+0000 and UNKNOWN-ATTRIBUTES never lists type 0x0000 (so a decoder may strip padding a sender counted into the length)",
@@ -840,6 +843,7 @@ pub fn property() -> Property {
             "client: end of a request that is never answered is accepted at 39.5 s (RFC Rm=16) or 63.5 s (pure doubling); no transmission after 31.5 s either way",
             "client: success AND error responses are 'its response' (RFC 8489 6.3.3 / 6.3.4); a request or indication that carries the id of a pending request may either complete the call or be handed to the user (statement silent), both readings accepted as a whole",
             "client: responses come from the address the request was sent to; two calls with the same id are never pending at the same time; timing ties between different calls are not generated",
+            "client_transport: a response that StunEndpoint::receive is given while send_to of one of the request's transmissions is still pending (the datagram has been handed to the transport) is 'its response' like any other; whether the wait runs from the start or the end of a slow send_to is not asserted; the call may return at delivery or when that send_to returns",
             "little-endian host (ezk's set_len byte shuffling is only exercised on the host it runs on)",
         ],
         explanation: "Sampled: typed messages (builder, ref_decode), byte strings and mutated messages (no_panic), SIP text (demux_sip). \
@@ -850,7 +854,11 @@ pub fn property() -> Property {
                       2-3 requests pending at once with near-identical ids, every combination of a small set of answers and of success/error \
                       responses, and the same id reused after the call ended (client_concurrent); \
                       send_to failing at each of the 7 transmissions and the future dropped on a grid of virtual instants around every \
-                      timer edge, with and without an await inside send_to, followed by a late message of each class (client_cleanup). \
+                      timer edge, with and without an await inside send_to, followed by a late message of each class (client_cleanup); \
+                      21 combinations of send_to completion (ready / yields 1,3 times / pending 2,40 ms) and answer path (from inside send_to before / after \
+                      its await points, server task with latency 0 / inside the pending time / after it) x 22 answer patterns (right id at each of the \
+                      7 transmissions alone, behind a foreign-id response, after foreign-id responses to all earlier transmissions; never; only foreign ids) \
+                      x {success, error} x {header only, one pooled body (four when the initial transmission is the answered one); thorough: every pooled body} (client_transport). \
                       Methods other than Binding: no-panic only.",
         subs: vec![
             prop_sub("builder", gen::msg_case, 2000, 60000, check_builder),
@@ -861,6 +869,7 @@ pub fn property() -> Property {
             enum_sub("client_schedule", client::schedule_cases, client::check_schedule),
             enum_sub("client_concurrent", client::concurrent_cases, client::check_concurrent),
             enum_sub("client_cleanup", client::cleanup_cases, client::check_cleanup),
+            enum_sub("client_transport", client::transport_cases, client::check_transport),
         ],
     }
 }
